@@ -1,20 +1,26 @@
 (** src/client/flow.rs can_redirect_auth_header, translated (Gen2.gen_can_redirect_auth_header), against the model's
     Flow.can_redirect_auth_header.  The model's URIs are absolute (scheme and authority always present), so what the Rust function
-    reads off them is [Some host] / [Some scheme]. *)
+    reads off them is [Some host] / [Some scheme].  The proofs only do case analysis on the three comparisons, so any equivalent
+    arrangement of the tests (early return, swapped disjuncts) is accepted. *)
 From Coq Require Import NArith Bool List.
 From Hoot Require Import Base Url Request Call Flow GenLib Gen Gen2.
 Open Scope N_scope.
 
-Theorem gen_can_redirect_auth_header_eq prev next :
-  gen_can_redirect_auth_header (Some (uri_host prev)) (Some (uri_host next)) (Some (u_scheme prev)) (Some (u_scheme next))
-  = can_redirect_auth_header prev next.
-Proof. reflexivity. Qed.
-
-(** Reading of the translated test itself, for any pair of option values: the hosts must agree (both absent counts as agreeing),
+(** Reading of the translated test itself, for any option values: the hosts must agree (both absent counts as agreeing),
     and the target's scheme is the previous one or https. *)
 Theorem gen_can_redirect_auth_header_spec hp hn sp sn :
   gen_can_redirect_auth_header hp hn sp sn = true <->
   opt_bytes_eqb hp hn = true /\ (opt_bytes_eqb sp sn = true \/ opt_bytes_eqb sn (Some (s2b "https")) = true).
 Proof.
-  unfold gen_can_redirect_auth_header. cbv zeta. rewrite andb_true_iff, orb_true_iff. reflexivity.
+  unfold gen_can_redirect_auth_header. cbv zeta.
+  destruct (opt_bytes_eqb hp hn), (opt_bytes_eqb sp sn), (opt_bytes_eqb sn (Some (s2b "https"))); cbn;
+    intuition discriminate.
+Qed.
+
+Theorem gen_can_redirect_auth_header_eq prev next :
+  gen_can_redirect_auth_header (Some (uri_host prev)) (Some (uri_host next)) (Some (u_scheme prev)) (Some (u_scheme next))
+  = can_redirect_auth_header prev next.
+Proof.
+  apply eq_true_iff_eq. rewrite gen_can_redirect_auth_header_spec. unfold can_redirect_auth_header, opt_bytes_eqb.
+  rewrite andb_true_iff, orb_true_iff. reflexivity.
 Qed.
